@@ -286,6 +286,25 @@ class Functor(pg_object.Object, utils.Functor):
     self._specified_args.discard(name)
     self._non_default_args.discard(name)
 
+  def sym_jsonify(self, **kwargs) -> utils.JSONValueType:
+    """Converts the functor to JSON, with the specified arguments only.
+
+    Arguments that were not specified hold their default values. They are not
+    serialized, so they remain unspecified (thus late-bindable at call time)
+    after the functor is loaded.
+
+    Args:
+      **kwargs: Keyword arguments for `pg.Object.sym_jsonify`.
+
+    Returns:
+      A JSON value.
+    """
+    exclude_keys = set(kwargs.pop('exclude_keys', None) or [])
+    exclude_keys.update(
+        k for k in self._sym_attributes.sym_keys()
+        if k not in self._specified_args)
+    return super().sym_jsonify(exclude_keys=exclude_keys, **kwargs)
+
   def _sym_missing(self) -> Dict[str, Any]:
     """Returns missing values for Functor.
 
